@@ -6,6 +6,8 @@ def text_edit(old, new):
         return src.replace(old, new, 1) if old in src else None
     return edit
 MUTANTS = [
+    Mutant('add_helper_wrong_keys', 'src/pharmpy/tools/mfl/parse.py', text_edit("        k: tuple(set(s2_join_name_dict[k]) - set(s1_join_name_dict[k]))\n        for k in s2_join_name_dict.keys()", "        k: tuple(set(s2_join_name_dict[k]) - set(s1_join_name_dict[k]))\n        for k in s1_join_name_dict.keys()"), 'G13', 'keys of the subtrahend'),
+    Mutant('partitions_sorted_input', 'src/pharmpy/internals/set/partitions.py', text_edit("    _elements = tuple(elements)", "    _elements = tuple(sorted(elements))"), 'G11', 'input re-ordered'),
     Mutant('partitions_sort_parts', 'src/pharmpy/internals/set/partitions.py', text_edit("    return sorted(iterable, key=_shortlexkey)", "    return sorted(map(tuple, map(sorted, iterable)), key=_shortlexkey)"), 'G11', 'elements inside parts sorted'),
     Mutant('partitions_prepend', 'src/pharmpy/internals/set/partitions.py', text_edit("(part + suffix,)", "(suffix + part,)"), 'G11', 'parts in reverse order'),
     Mutant('peripheral_prev_ignored', 'src/pharmpy/tools/modelsearch/algorithms.py', text_edit(" and n_all[n_index - 1] == max(n_prev)", ""), 'G12', 'previous steps ignored'),
